@@ -67,13 +67,41 @@ def make_field(kind, fam, geometry, rng):
     raise KeyError(kind)
 
 
-def evaluate(run, items, x, label, rng, conservative, order=0, inplace=False, more=True):
+def evaluate(run, items, x, label, rng, conservative, order=0, inplace=False, more=True, explicit=None):
     """Drive fun_items/jac_items in different call orders (out= buffers inside the items are state)."""
     _evaluate(run, items, x, label, rng, conservative, order, inplace)
     if more:
         # the same items again the way later Newton iterations see them: after an evaluation at another state (3), with a
         # container that is not the items' own (4), with threaded assembly (5)
         _evaluate(run, items, x, label, rng, conservative, 3 + order % 3, inplace)
+    if explicit if explicit is not None else order % 3 == 0:
+        # and the way code outside Newton asks for a matrix (6): item.assemble.matrix(field) with an explicit field, matrix first
+        # (a generator of its own: the states of the calls above and of whatever the case draws afterwards stay what they were)
+        _evaluate(run, items, x, label, rng_for(run.seed, "C01", "matrix(field)", label, order), conservative, 6, inplace)
+
+
+def explicit_matrix(items, x):
+    """sum_i multiplier_i * item_i.assemble.matrix(field) with an explicit field and no vector assembled before - the call style of
+    ``FreeVibration`` and of user code (the property's ``observe_at`` lists it), summed and resized the way ``jac_items`` does.
+    ``jac_items`` itself calls ``assemble.matrix()`` without a field, which leaves the branches ``if field is not None`` of every
+    item unexecuted (third coverage audit): there the matrix call itself has to bring the kinematics to the given state.
+    The field handed over is the global container, except for items that live on a container of their own without taking
+    their values from another one (a form item on a boundary region): these get their own container, linked as Newton links it."""
+    from scipy.sparse import csr_matrix
+    n = int(np.sum(x.fieldsizes))
+    K = csr_matrix((n, n))
+    for it in items:
+        if it.field is x or hasattr(it, "_update"):
+            Ki = it.assemble.matrix(x)
+        else:
+            it.field.link(x)
+            Ki = it.assemble.matrix(it.field)
+        m = it.assemble.multiplier
+        Ki = (Ki * m if m is not None else Ki.copy()).tocsr()
+        if Ki.shape != (n, n):
+            Ki.resize(n, n)
+        K = K + Ki
+    return K
 
 
 def _evaluate(run, items, x, label, rng, conservative, order, inplace):
@@ -81,6 +109,28 @@ def _evaluate(run, items, x, label, rng, conservative, order, inplace):
     from felupe.tools._newton import fun_items, jac_items
     settle = MI.needs_settle(items)
     kw = {}
+    if order == 6:
+        keep = [f.values.copy() for f in x.fields]
+        for k, f in enumerate(x.fields):
+            # the last evaluation of the items was at another admissible state nearby (as in order 3, in units of the body)
+            unit = float(np.ptp(f.region.mesh.points, axis=0).max()) / 1.5 if k == 0 else 1.0
+            f.values[:] = f.values + 0.02 * max(unit, float(np.abs(f.values).max())) * rng.standard_normal(f.values.shape)
+        fun_items(items, x)
+        jac_items(items, x)
+        for f, v in zip(x.fields, keep):
+            f.values[:] = v
+        if settle:
+            # the property speaks about the condensed body at a settled state: its explicit-field matrix call then runs the
+            # state update (p, J) inside a *matrix* call with a zero increment; the other items of the list still come from the other state
+            for it in items:
+                if type(it).__name__ == "SolidBodyNearlyIncompressible":
+                    it.assemble.vector(x)
+                    it.assemble.vector(x)
+        K = explicit_matrix(items, x)
+        run.units["order:explicit-field-matrix"] += 1
+        # one random direction (plus one per field of a mixed container): a matrix of another state differs in every direction
+        MI.check_tangent(run, items, x, K, label + "@matrix(field)", conservative=conservative, ndir=1, rng=rng, inplace=inplace)
+        return
     if order == 3:
         keep = [f.values.copy() for f in x.fields]
         for k, f in enumerate(x.fields):
@@ -120,6 +170,61 @@ def _evaluate(run, items, x, label, rng, conservative, order, inplace):
     MI.check_tangent(run, items, x, K, label, conservative=conservative, rng=rng, inplace=inplace)
 
 
+class UmatPath:
+    """``tools.fun`` / ``tools.jac`` - the ``umat`` call style ``newtonrhapson(x0, args=(umat,), kwargs=flags)``, Newton's defaults
+    for ``fun`` and ``jac`` - behind the interface of an item, so that the deciding monitor differentiates what that call style
+    really evaluates (``fun_items`` / ``jac_items`` only forward to the two functions, with the flags of the call)."""
+
+    def __init__(self, umat, field, **flags):
+        import types
+        self.umat, self.field, self.flags = umat, field, flags
+        self.assemble = types.SimpleNamespace(vector=self._vector, matrix=self._matrix, multiplier=None)
+
+    def _flags(self, parallel):
+        return dict(self.flags, parallel=True) if parallel else self.flags
+
+    def _vector(self, field=None, parallel=False):
+        from felupe.tools._newton import fun
+        from scipy.sparse import csr_matrix
+        return csr_matrix(fun(self.field if field is None else field, self.umat, **self._flags(parallel)).reshape(-1, 1))
+
+    def _matrix(self, field=None, parallel=False):
+        from felupe.tools._newton import jac
+        return jac(self.field if field is None else field, self.umat, **self._flags(parallel))
+
+
+def case_umat_path(kind, fam, rep):
+    """The second anchored pair of ``tools/_newton.py``: ``jac(x, umat, **flags)`` against differences of ``fun(x, umat, **flags)``
+    with the documented flags (third coverage audit: nothing executed the pair; a flag dropped or swapped in ``jac`` only - ``sym`` not
+    forwarded to ``extract`` - still converges, which is all the other checks see of this call style)."""
+    def fn(run):
+        import felupe as fem
+        rng = rng_for(run.seed, "C01", "umat-path", kind, fam, rep)
+        field, mesh, reg = make_field(kind, fam, "distorted", rng)
+        flagset = ["default", "parallel", "sym"][rep % 3]
+        if flagset == "sym" and not kind.startswith("mixed"):
+            # the small-strain call style: symmetric part of the displacement gradient, no identity added
+            field[0].values[:] = gen.random_displacement(rng, mesh, grad=0.05)
+            umat = fem.LinearElastic(E=float(rng.uniform(1, 3)), nu=float(rng.uniform(0.1, 0.4)))
+            flags = {"sym": True, "add_identity": False, "parallel": bool(rep // 3 % 2)}
+        else:
+            random_state(rng, field)
+            if kind.startswith("mixed"):
+                umat = [fem.ThreeFieldVariation(fem.NeoHookeCompressible(mu=1.0, lmbda=float(rng.uniform(1, 4)))),
+                        fem.NearlyIncompressible(fem.NeoHooke(mu=1.0), bulk=float(rng.uniform(5, 30))),
+                        fem.ThreeFieldVariation(fem.NeoHooke(mu=1.0, bulk=float(rng.uniform(5, 30))))][rep % 3]
+            else:
+                umat = [fem.NeoHooke(mu=1.0, bulk=float(rng.uniform(1, 5))), fem.NeoHookeCompressible(mu=1.0, lmbda=float(rng.uniform(1, 4)))][rep % 3]
+            # every documented flag spelled out once (the values of the defaults), threaded once
+            flags = [{}, {"parallel": True}, {"grad": True, "add_identity": True, "sym": False, "parallel": True}][rep % 3]
+            flagset = ["default", "parallel", "spelled-out"][rep % 3]
+        run.units["umat-path-flags:" + flagset] += 1
+        label = "tools.fun/jac[%s]" % kind
+        evaluate(run, [UmatPath(umat, field, **flags)], field, label, rng, conservative=True, order=rep % 3, explicit=False)
+        run.configs.add(str((label, fam, type(umat).__name__, flagset)))
+    return fn
+
+
 def case_solid(kind, fam, geometry, mat, rep):
     def fn(run):
         import felupe as fem
@@ -151,7 +256,8 @@ def case_solid(kind, fam, geometry, mat, rep):
                 body.results.update_statevars()
                 body.assemble.vector(field)
             label = "SolidBody[%s]" % ({"3d": "Field", "planestrain": "FieldPlaneStrain", "axisymmetric": "FieldAxisymmetric"}[kind])
-        evaluate(run, [body], field, label, rng, conservative=True, order=rep % 3)
+        # (the explicit-field call style in every second configuration, chosen by the names: the large families make it the costly part of the tier)
+        evaluate(run, [body], field, label, rng, conservative=True, order=rep % 3, explicit=rep % 3 == 0 and (len(fam) + len(mat)) % 2 == 0)
         run.configs.add(str((label, fam, geometry, mat)))
     return fn
 
@@ -199,6 +305,75 @@ def case_history_material(which, kind, fam, rep):
     return fn
 
 
+def case_history_more(which, kind, fam, rep):
+    """The same three laws with committed state variables on the field kinds the plan above leaves out (third coverage audit):
+    axisymmetric bodies, plasticity on the 2D kinds, and mixed containers, where the law sits inside ``ThreeFieldVariation`` /
+    ``NearlyIncompressible`` and the state variables travel behind three kinematic entries. In every second repetition the judged
+    body is a new one that receives the committed state through the documented constructor argument ``statevars=`` (a restart)."""
+    def fn(run):
+        import felupe as fem
+        rng = rng_for(run.seed, "C01", "history-more", which, kind, fam, rep)
+        field, mesh, reg = make_field(kind, fam, "distorted", rng)
+        mixed = kind.startswith("mixed")
+        split = mixed and rep % 2 == 1  # the wrapper that adds the volumetric part itself gets a law without one
+        if which == "viscoelastic":
+            umat = fem.Hyperelastic(fem.finite_strain_viscoelastic, mu=1.0, eta=float(rng.uniform(0.5, 2)), dtime=float(rng.uniform(0.2, 1)), nstatevars=6)
+            umat = umat if split else umat & fem.Volumetric(bulk=3.0)
+            amp = 0.2
+        elif which == "plasticity":
+            umat = fem.LinearElasticPlasticIsotropicHardening(E=100.0, nu=0.3, sy=1.0, K=float(rng.uniform(5, 30)))
+            amp = 0.03
+        else:
+            umat = inner = fem.OgdenRoxburgh(fem.NeoHooke(mu=1.0) if split else fem.NeoHooke(mu=1.0, bulk=3.0), r=3.0, m=1.0, beta=0.1)
+            amp = 0.2
+        if mixed:
+            umat = fem.NearlyIncompressible(umat, bulk=float(rng.uniform(5, 30))) if split else fem.ThreeFieldVariation(umat)
+            run.units["history-wrapper:%s(%s)" % (type(umat).__name__, which)] += 1
+
+        def duals(scale):
+            if mixed:
+                field[1].values[:] = scale * 0.3 * rng.standard_normal(field[1].values.shape)
+                field[2].values[:] = 1 + scale * 0.1 * rng.standard_normal(field[2].values.shape)
+
+        body = fem.SolidBody(umat, field)
+        # committed history: one converged-like increment
+        field[0].values[:] = gen.random_displacement(rng, mesh, grad=0.6 * amp)
+        duals(0.5)
+        body.assemble.vector(field)
+        body.results.update_statevars()
+        committed = body.results.statevars.copy()
+        # next increment (state changes), evaluated in the order Newton uses: vector, then matrix
+        if which == "ogden-roxburgh":
+            # unloading / further loading along the committed state: a random increment raises the energy in one part of the body and
+            # lowers it in another, so that some quadrature point nearly always sits on the switch in between (the cases above lose
+            # about every second draw to that precondition)
+            field[0].values[:] = [0.6, 1.3][(rep + rep // 2) % 2] * field[0].values
+        else:
+            field[0].values[:] = field[0].values + gen.random_displacement(rng, mesh, grad=0.6 * amp)
+        duals(1.0)
+        if which == "ogden-roxburgh":
+            # the kink of the pseudo-elastic model (see case_history_material), at the deformation gradient the wrapped law sees
+            x = field.extract()
+            Fq = x[0]
+            if mixed and not split:
+                Fq = (x[2] / np.linalg.det(Fq.transpose([2, 3, 0, 1]))) ** (1 / 3) * Fq
+            W = np.asarray(inner.material.function([Fq, None])[0], float)
+            Wmax = np.asarray(committed[0], float)
+            z = np.abs(Wmax - W) / (inner.m + inner.beta * np.maximum(Wmax, W))
+            if np.min(np.abs(W - Wmax)) < 2e-3 * max(maxabs(Wmax), maxabs(W)) or np.min(z) < 2e-4:
+                run.skip("items.tangent", "a quadrature point sits on the loading/unloading switch of the pseudo-elastic model (kink)")
+                return
+        restart = rep // 2 % 2 == 1 if mixed else rep % 2 == 1
+        if restart:
+            # a restart: the committed state of the first body is all the new one knows about the history
+            body = fem.SolidBody(umat, field, statevars=committed)
+            run.units["history-restart(statevars=)"] += 1
+        label = "SolidBody[%s,history,%s]" % (which, kind)
+        evaluate(run, [body], field, label, rng, conservative=False, order=rep % 3)
+        run.configs.add(str((label, fam, type(umat).__name__, "restart" if restart else "same body")))
+    return fn
+
+
 def case_nearly_incompressible(kind, fam, rep):
     def fn(run):
         import felupe as fem
@@ -223,7 +398,7 @@ def case_nearly_incompressible(kind, fam, rep):
             body.assemble.vector(field)
         run.units["ni-umat:" + which] += 1
         label = "SolidBodyNearlyIncompressible[%s]" % kind
-        evaluate(run, [body], field, label, rng, conservative=True, order=rep % 3)
+        evaluate(run, [body], field, label, rng, conservative=True, order=rep % 3, explicit=rep == 0)
         run.configs.add(str((label, fam)))
         if which in ("NeoHooke", "tt.yeoh"):
             # two condensed bodies on one field (two materials in one model; the layout of sub-mesh bodies linked to one top-level
@@ -289,6 +464,115 @@ def case_load(what, kind, rep):
         run.configs.add(str((label, "closed" if closed else "open")))
         if with_solid:
             run.units["multi-item-list-with-multiplier=-1"] += 1
+    return fn
+
+
+def pressure_twin(run, field, fb, p, name, dim=3):
+    """A second reference for the follower loads, which the difference quotient cannot give: the Cauchy stress -p I *is* the
+    pressure p (sigma n da = -p n da), so ``SolidBodyCauchyStress(-p I)`` and ``SolidBodyPressure(p)`` have to assemble the same
+    vector and the same matrix. The two items contract the area change differently (``fun *= -p`` against ``dot(sigma, fun)``,
+    modes (2, 2) and (2, 4), each with its own copy of the normals); a slip common to the vector and the matrix of one of them - a
+    sign convention, a factor, the normals it keeps - is consistent, passes the derivative clause, and shows here (a transposed
+    contraction does not: the stress is isotropic). Both sides are new objects on containers of their own; measured difference 0.0."""
+    import felupe as fem
+    from felupe.tools._newton import fun_items, jac_items
+    a = fem.SolidBodyPressure(fb.copy(), pressure=p)
+    b = fem.SolidBodyCauchyStress(fb.copy(), cauchy_stress=-float(p) * np.eye(dim))
+    va, vb = fun_items([a], field), fun_items([b], field)
+    Ka, Kb = jac_items([a], field).toarray(), jac_items([b], field).toarray()
+    for clause, ra, rb in (("vector", va, vb), ("matrix", Ka, Kb)):
+        err = maxabs(ra - rb) / max(maxabs(ra), maxabs(rb), 1e-300)
+        run.compare("items.tangent", "item=%s clause=pressure-equals-cauchy-stress(-pI):%s" % (name, clause), err, 1e-12,
+                    "%s: the %s of SolidBodyPressure(p) differs from that of SolidBodyCauchyStress(-p I)" % (name, clause),
+                    unit="twin:pressure=cauchy-stress(-pI):%s" % clause, config=name + " twin " + clause)
+
+
+def case_load_more(kind, rep):
+    """Follower loads with the value types and field kinds that ``case_load`` leaves out (third coverage audit): integer and 0-d
+    pressures, one (integer) pressure per cell, stresses given as nested lists, integer or column-major arrays; a plain 2D ``Field``
+    with a 2D boundary region (2 x 2 kinematics and stress); loads summed into the system of a mixed axisymmetric container. Where the
+    pressure is one number its Cauchy-stress twin is compared."""
+    def fn(run):
+        import felupe as fem
+        rng = rng_for(run.seed, "C01", "load-more", kind, rep)
+        closed = bool(rep % 2)
+        if kind in ("hex", "planestrain", "axisymmetric"):
+            field, fb, mesh = boundary_field(kind, rng, closed)
+            dim = 3
+        else:
+            mesh, _ = gen.build_mesh("quad", "distorted", rng)
+            mesh = mesh.copy(points=mesh.points + np.array([0.0, 1.5 - mesh.points[:, 1].min()]))
+            reg = fem.RegionQuad(mesh)
+            mask = None if closed else np.isclose(mesh.points[:, 0], mesh.points[:, 0].max())
+            if kind == "plain2d":
+                field = fem.FieldContainer([fem.Field(reg, dim=2)])
+                fb = fem.FieldContainer([fem.Field(fem.RegionQuadBoundary(mesh, mask=mask), dim=2)])
+                dim = 2
+            else:
+                field = fem.FieldsMixed(reg, n=3, axisymmetric=True)
+                fb = fem.FieldContainer([fem.FieldAxisymmetric(fem.RegionQuadBoundary(mesh, mask=mask, ensure_3d=True), dim=2)])
+                dim = 3
+        random_state(rng, field)
+        if kind == "mixed-axisymmetric":
+            solid = fem.SolidBody(fem.ThreeFieldVariation(fem.NeoHooke(mu=1.0, bulk=5.0)), field)
+        else:
+            solid = fem.SolidBody(fem.NeoHookeCompressible(mu=1.0, lmbda=2.0), field)
+        ncells = fb.region.dV.shape[1]
+        ptype = ["int", "0-d", "per-cell-int"][rep % 3]
+        pv = {"int": lambda: int(rng.choice([-2, -1, 1, 2])), "0-d": lambda: np.array(float(rng.choice([-1, 1])) * float(rng.uniform(0.2, 1))),
+              "per-cell-int": lambda: rng.integers(-2, 3, (1, ncells))}[ptype]()
+        stype = ["list", "int", "column-major"][rep % 3]
+        s = rng.standard_normal((dim, dim))
+        sv = {"list": lambda: (s + s.T).tolist(), "int": lambda: rng.integers(-2, 3, (dim, dim)), "column-major": lambda: np.asfortranarray(s)}[stype]()
+        with_solid = bool(rep // 2 % 2) or kind == "mixed-axisymmetric"
+        for what, load, vtype in (("SolidBodyPressure", fem.SolidBodyPressure(fb.copy(), pressure=pv), ptype),
+                                  ("SolidBodyCauchyStress", fem.SolidBodyCauchyStress(fb.copy(), cauchy_stress=sv), stype)):
+            name = "%s[%s,%s]" % (what, kind, vtype)
+            run.units["load-value-type:%s:%s" % (what, vtype)] += 1
+            evaluate(run, [solid, load] if with_solid else [load], field, name, rng, conservative=False, order=rep % 3, explicit=rep % 2 == 0)
+            run.configs.add(str((name, vtype, "closed" if closed else "open", with_solid)))
+        if ptype != "per-cell-int":
+            pressure_twin(run, field, fb, pv, "SolidBodyPressure[%s]" % kind, dim=dim)
+    return fn
+
+
+def case_axis_load(rep):
+    """Axisymmetric follower loads on a body that touches the axis - the geometry of the class docstrings (``Rectangle``, r from 0) - where
+    every case above keeps the bodies at r >= 1.5 (third coverage audit). The loaded surface is chosen by a mask that leaves out the
+    edge on the axis, which is no surface of the revolved body: the face perpendicular to the axis, which reaches the axis with one
+    corner (the docstring's mask), or the whole outline but the axis edge. The states keep u_r = 0 on the axis."""
+    def fn(run):
+        import felupe as fem
+        rng = rng_for(run.seed, "C01", "axis-load", rep)
+        fam, Rv, Rb = [("quad", "RegionQuad", "RegionQuadBoundary"), ("quad8", "RegionQuadraticQuad", "RegionQuadraticQuadBoundary"),
+                       ("quad9", "RegionBiQuadraticQuad", "RegionBiQuadraticQuadBoundary")][rep % 3]
+        mesh, _ = gen.build_mesh(fam, "distorted", rng)
+        X = mesh.points.copy()
+        X[:, 1] -= X[:, 1].min()
+        mesh = mesh.copy(points=X)
+        r, z = X[:, 1], X[:, 0]
+        on_axis = r == 0
+        assert on_axis.sum() >= 3  # the generator moves boundary points along the boundary only
+        field = fem.FieldContainer([fem.FieldAxisymmetric(getattr(fem, Rv)(mesh), dim=2)])
+        u = gen.random_displacement(rng, mesh, grad=0.2)
+        u[:, 1] *= r / r.max()  # no radial displacement on the axis, hoop stretch 1 + u_r / r bounded like the gradient
+        field[0].values[:] = u
+        ends = np.isclose(z, z.max()) | np.isclose(z, z.min())
+        surface = ["end-face", "outline-without-axis-edge"][rep // 3 % 2]
+        mask = np.isclose(z, z.max()) if surface == "end-face" else (~on_axis | ends)
+        rb = getattr(fem, Rb)(mesh, mask=mask, ensure_3d=True)
+        fb = fem.FieldContainer([fem.FieldAxisymmetric(rb, dim=2)])
+        s = rng.standard_normal((3, 3))
+        solid = fem.SolidBody(fem.NeoHooke(mu=1.0, bulk=2.0), field)
+        with_solid = bool(rep % 2)
+        pv = float(rng.choice([-1, 1])) * float(rng.uniform(0.2, 1))
+        for what, load in (("SolidBodyPressure", fem.SolidBodyPressure(fb.copy(), pressure=pv)),
+                           ("SolidBodyCauchyStress", fem.SolidBodyCauchyStress(fb.copy(), cauchy_stress=s + s.T if rep % 2 else s))):
+            name = "%s[axisymmetric,on-axis]" % what
+            evaluate(run, [solid, load] if with_solid else [load], field, name, rng, conservative=False, order=rep % 3)
+            run.configs.add(str((name, Rb, surface, with_solid)))
+        run.units["axis-load-surface:" + surface] += 1
+        pressure_twin(run, field, fb, pv, "SolidBodyPressure[axisymmetric,on-axis]")
     return fn
 
 
@@ -396,6 +680,117 @@ def case_formitem(rep):
     return fn
 
 
+def case_formitem_more(which, rep):
+    """Form items beyond the one serial single-field configuration above (third coverage audit): the remaining call orders
+    (foreign container, threaded integration incl. its ``sym`` branch), the documented mixed three-field item (six upper-triangle
+    forms), items with only one of the two forms (zero vector / zero matrix sized by the whole container) and the documented
+    penalty boundary condition on a boundary-region container in a list with a solid (keyword arguments, ``update``).
+    The forms read the state from the container they were written for, so the differences are taken in place."""
+    def fn(run):
+        import felupe as fem
+        from felupe.math import ddot, grad
+        rng = rng_for(run.seed, "C01", "formitem", which, rep)
+        sym = bool(rep % 2)
+        if which == "single":
+            field, mesh, reg = make_field("3d", "hexahedron", "distorted", rng)
+            random_state(rng, field)
+            umat = fem.NeoHookeCompressible(mu=1.0, lmbda=2.0)
+
+            @fem.Form(v=field)
+            def linearform():
+                return [lambda v, **kwargs: ddot(grad(v), umat.gradient(field.extract())[0])]
+
+            @fem.Form(v=field, u=field)
+            def bilinearform():
+                return [lambda v, u, **kwargs: ddot(ddot(grad(v), umat.hessian(field.extract())[0], mode=(2, 4)), grad(u))]
+
+            order = [1, 2, 2, 1][rep % 4]
+            evaluate(run, [fem.FormItem(bilinearform, linearform, sym=sym, kwargs={})], field, "FormItem", rng, conservative=True, order=order, inplace=True)
+            run.configs.add(str(("FormItem", "sym=%s" % sym, "order=%d" % order)))
+            return
+        if which in ("mixed", "none-forms"):
+            # the class docstring's "Hu-Washizu (Mixed) Three-Field Formulation": law and container arrive as keyword arguments; the
+            # p-p block, which the law returns as None, is written as a zero
+            mesh, _ = gen.build_mesh("hexahedron", "distorted", rng, n=(3, 2, 3))
+            field = fem.FieldsMixed(fem.RegionHexahedron(mesh), n=3)
+            random_state(rng, field)
+            umat = fem.ThreeFieldVariation(fem.NeoHooke(mu=1.0, bulk=float(rng.uniform(5, 30))) if rep % 4 < 2 else
+                                           fem.NeoHookeCompressible(mu=1.0, lmbda=float(rng.uniform(1, 4))))
+
+            memo = {}
+
+            def law(what, kwargs):
+                # (the docstring evaluates the law for every pair of shape functions; here once per state and call)
+                key = (what, b"".join(f.values.tobytes() for f in kwargs["field"].fields))
+                if memo.get("key") != key:
+                    memo.update(key=key, value=getattr(kwargs["umat"], what)(kwargs["field"].extract()))
+                return memo["value"]
+
+            @fem.Form(v=field)
+            def linearform():
+                def L1(du, **kwargs):
+                    dW = linearform.dW = law("gradient", kwargs)
+                    return ddot(grad(du), dW[0])
+                return [L1, lambda dp, **kwargs: dp[0] * linearform.dW[1], lambda dJ, **kwargs: dJ[0] * linearform.dW[2]]
+
+            @fem.Form(v=field, u=field)
+            def bilinearform():
+                def a11(du, Du, **kwargs):
+                    d2W = bilinearform.d2W = law("hessian", kwargs)
+                    return ddot(ddot(grad(du), d2W[0], mode=(2, 4)), grad(Du))
+                return [a11,
+                        lambda du, Dp, **kwargs: ddot(grad(du), bilinearform.d2W[1]) * Dp[0],
+                        lambda du, DJ, **kwargs: ddot(grad(du), bilinearform.d2W[2]) * DJ[0],
+                        lambda dp, Dp, **kwargs: dp[0] * 0.0 * Dp[0],
+                        lambda dp, DJ, **kwargs: dp[0] * bilinearform.d2W[4] * DJ[0],
+                        lambda dJ, DJ, **kwargs: dJ[0] * bilinearform.d2W[5] * DJ[0]]
+
+            kwargs = {"umat": umat, "field": field}
+            if which == "mixed":
+                items, label = [fem.FormItem(bilinearform, linearform, sym=sym, kwargs=kwargs)], "FormItem[mixed]"
+            else:
+                # the two halves of the same item: a matrix without a vector and a vector without a matrix; their sum is consistent, each
+                # half contributes a zero block sized by all fields of the container
+                items, label = [fem.FormItem(bilinearform, None, sym=sym, kwargs=kwargs), fem.FormItem(None, linearform, kwargs=kwargs)], "FormItem[none-forms]"
+                if rep % 4 >= 2:
+                    items = items[::-1]
+            evaluate(run, items, field, label, rng, conservative=True, order=rep % 3, inplace=True)
+            run.configs.add(str((label, "sym=%s" % sym, "order=%d" % (rep % 3), type(umat.material).__name__)))
+            return
+        # the class docstring's "Boundary Condition": a penalty term on a face, written on a boundary-region container of its own,
+        # in a list with the solid; here with a stiffness that depends on the ramped keyword argument
+        mesh, _ = gen.build_mesh("hexahedron", "distorted", rng, n=(3, 2, 3))
+        field = fem.FieldContainer([fem.Field(fem.RegionHexahedron(mesh), dim=3)])
+        random_state(rng, field)
+        solid = fem.SolidBody(fem.NeoHookeCompressible(mu=1.0, lmbda=2.0), field)
+        face = np.isclose(mesh.points[:, 0], mesh.points[:, 0].max())
+        right = fem.FieldContainer([fem.Field(fem.RegionHexahedronBoundary(mesh, mask=face), dim=3)])
+        direction = rng.standard_normal(3).reshape(3, 1, 1)
+
+        @fem.Form(v=right)
+        def linearform():
+            def L(v, value, multiplier=100):
+                u = right.extract(grad=False)[0]
+                return (1 + value ** 2) * multiplier * ddot(v, u - value * direction)
+            return [L]
+
+        @fem.Form(v=right, u=right)
+        def bilinearform():
+            return [lambda v, u, value, multiplier=100: (1 + value ** 2) * multiplier * ddot(v, u)]
+
+        by_key = bool(rep // 2 % 2)
+        kw = {"multiplier": float(rng.uniform(5, 50)), "value": 0.0} if by_key else {"value": 0.0, "multiplier": float(rng.uniform(5, 50))}
+        move = fem.FormItem(bilinearform, linearform, sym=sym, kwargs=kw, ramp_item="value" if by_key else 0)
+        items = [solid, move] if rep % 2 else [move, solid]
+        from felupe.tools._newton import fun_items, jac_items
+        fun_items(items, field)
+        jac_items(items, field)
+        move.update(float(rng.uniform(0.2, 1.0)))  # what a Step does between two substeps
+        evaluate(run, items, field, "FormItem[boundary]+SolidBody", rng, conservative=True, order=rep % 3, inplace=True)
+        run.configs.add(str(("FormItem[boundary]+SolidBody", "sym=%s" % sym, "order=%d" % (rep % 3), "ramp_item by key" if by_key else "ramp_item 0")))
+    return fn
+
+
 def case_wider(which, rep):
     """Item / field / family combinations of the quantifier that the main plan leaves out (second coverage audit)."""
     def fn(run):
@@ -499,6 +894,47 @@ def case_wider(which, rep):
                 field[0].values[:] = gen.random_displacement(rng, m, grad=0.2, noise=0)
                 evaluate(run, [fem.SolidBody(fem.NeoHookeCompressible(mu=1.0, lmbda=2.0), field)], field, "SolidBody[RegionLagrange]", rng, conservative=True, order=rep % 3)
             run.configs.add(str(("families", sel)))
+        elif which == "more-families":
+            # third coverage audit: the condensed body on regions with a bubble point inside the cells (MINI), on triangles, tri-quadratic
+            # hexahedra and arbitrary-order Lagrange regions; mixed bodies on continuous dual fields (disconnect=False) and on the duals of a
+            # Lagrange region; bodies on uniform=True regions (size-one cell axis of dhdX and dV against h (x) h / V, also threaded)
+            sel = rep % 8
+            condensed = lambda f: fem.SolidBodyNearlyIncompressible(fem.NeoHooke(mu=float(rng.uniform(0.5, 2))), f, bulk=float(rng.uniform(20, 200)))
+            if sel in (0, 1, 2, 3):
+                # (not on tetraMINI, nor on triangleMINI in plane strain: the rows of the bubble are so small there that the round-off of the
+                # difference quotient of the condensed vector reaches 0.05 .. 0.4 of the row-wise tolerance - no margin for a clause)
+                kind, fam = [("planestrain", "triangle"), ("axisymmetric", "triangleMINI"), ("axisymmetric", "triangle"), ("3d", "hexahedron27")][sel]
+                field, mesh, reg = make_field(kind, fam, "distorted", rng)
+                random_state(rng, field)
+                evaluate(run, [condensed(field)], field, "SolidBodyNearlyIncompressible[%s,%s]" % (fam, kind), rng, conservative=True, order=rep % 3)
+            elif sel in (4, 5):
+                kind, fam = [("mixed", "tetra10"), ("mixed-axisymmetric", "quad8")][sel - 4]
+                mesh, _ = gen.build_mesh(fam, "curved", rng)
+                if kind.endswith("axisymmetric"):
+                    mesh = mesh.copy(points=mesh.points + np.array([0.0, 1.5 * float(np.ptp(mesh.points[:, 1])) - mesh.points[:, 1].min()]))
+                field = fem.FieldsMixed(gen.make_region(fam, mesh), n=3, axisymmetric=kind.endswith("axisymmetric"), disconnect=False)
+                random_state(rng, field)
+                um = fem.NearlyIncompressible(fem.NeoHooke(mu=1.0), bulk=7.0) if rep // 8 % 2 else fem.ThreeFieldVariation(fem.NeoHookeCompressible(mu=1.0, lmbda=2.0))
+                evaluate(run, [fem.SolidBody(um, field)], field, "SolidBody[mixed,%s,disconnect=False]" % fam, rng, conservative=True, order=rep % 3)
+            elif sel == 6:
+                mesh, _ = gen.build_mesh("hexahedron", "undistorted", rng)
+                field = fem.FieldContainer([fem.Field(fem.RegionHexahedron(mesh, uniform=True), dim=3)])
+                random_state(rng, field)
+                evaluate(run, [fem.SolidBody(fem.NeoHooke(mu=1.0, bulk=float(rng.uniform(1, 5))), field)], field, "SolidBody[uniform=True]", rng, conservative=True, order=2)
+                evaluate(run, [condensed(field)], field, "SolidBodyNearlyIncompressible[uniform=True]", rng, conservative=True, order=rep // 8 % 2 * 2)
+            else:
+                m = gen.lagrange_mesh(2, 2)
+                m = m.copy(points=m.points + np.array([0.0, 1.5]))
+                reg = fem.RegionLagrange(m, order=2, dim=2)
+                field = fem.FieldContainer([fem.FieldAxisymmetric(reg, dim=2)])
+                field[0].values[:] = gen.random_displacement(rng, m, grad=0.2, noise=0)
+                evaluate(run, [condensed(field)], field, "SolidBodyNearlyIncompressible[RegionLagrange]", rng, conservative=True, order=rep % 3)
+                x = fem.FieldsMixed(reg, n=3, planestrain=True)
+                x[0].values[:] = gen.random_displacement(rng, m, grad=0.2, noise=0)
+                x[1].values[:] = 0.3 * rng.standard_normal(x[1].values.shape)
+                x[2].values[:] = 1 + 0.1 * rng.standard_normal(x[2].values.shape)
+                evaluate(run, [fem.SolidBody(fem.ThreeFieldVariation(fem.NeoHooke(mu=1.0, bulk=7.0)), x)], x, "SolidBody[mixed,RegionLagrange]", rng, conservative=True, order=rep % 3)
+            run.configs.add(str(("more-families", sel, rep // 8 % 2)))
     return fn
 
 
@@ -551,6 +987,29 @@ def cases(tier, seed):
     for rep in range(2):
         out.append(("dead:%d" % rep, case_dead_loads(rep)))
         out.append(("formitem:%d" % rep, case_formitem(rep)))
+    # third coverage audit: call styles, configurations and members of the quantifier that nothing above executes
+    for k, (kind, fam) in enumerate((("3d", "hexahedron"), ("planestrain", "quad"), ("axisymmetric", "quad8"), ("mixed", "hexahedron"),
+                                     ("mixed-axisymmetric", "quad"))):
+        for rep in ([k % 3, (k + 1) % 3] if tier == "quick" else range(6)):
+            out.append(("umat-path:%s:%s:%d" % (kind, fam, rep), case_umat_path(kind, fam, rep)))
+    for rep in ([0, 1, 4, 6] if tier == "quick" else range(16)):
+        out.append(("wider:more-families:%d" % rep, case_wider("more-families", rep)))
+    for kind in ("hex", "planestrain", "axisymmetric", "plain2d", "mixed-axisymmetric"):
+        for rep in (([1] if kind == "mixed-axisymmetric" else range(3)) if tier == "quick" else range(6)):
+            out.append(("load-more:%s:%d" % (kind, rep), case_load_more(kind, rep)))
+    for rep in range(6 if tier == "quick" else 12):
+        out.append(("axis-load:%d" % rep, case_axis_load(rep)))
+    # (repetitions: wrapper = rep % 2 and restart = rep // 2 % 2 on mixed containers, restart = rep % 2 elsewhere; call order rep % 3)
+    for which, kind, fam, quick, n in (("viscoelastic", "axisymmetric", "quad", [0, 1], 6), ("plasticity", "axisymmetric", "quad", [0, 1], 6),
+                                       ("ogden-roxburgh", "axisymmetric", "quad", [0, 1], 6), ("plasticity", "planestrain", "quad", [0, 1], 6),
+                                       ("viscoelastic", "mixed", "hexahedron", [0, 3], 12), ("ogden-roxburgh", "mixed", "hexahedron", [0, 1, 2, 3], 12),
+                                       ("viscoelastic", "mixed-axisymmetric", "quad", [2], 12), ("ogden-roxburgh", "mixed-axisymmetric", "quad", [2, 3], 12)):
+        for rep in (quick if tier == "quick" else range(n)):
+            out.append(("history-more:%s:%s:%s:%d" % (which, kind, fam, rep), case_history_more(which, kind, fam, rep)))
+    # (threaded integration of a form starts a thread per pair of shape functions: the quick tier keeps one such case, the mixed item with sym=True)
+    for which, quick, n in (("single", [0], 4), ("mixed", [0, 1, 3, 5], 12), ("none-forms", [0, 1], 4), ("boundary", [0, 1], 6)):
+        for rep in (quick if tier == "quick" else range(n)):
+            out.append(("formitem:%s:%d" % (which, rep), case_formitem_more(which, rep)))
     return out
 
 
@@ -579,6 +1038,35 @@ def _required():
     req += ["order:after-another-state", "order:foreign-container", "order:parallel", "solidbody-multiplier"]
     req += ["ni-umat:" + w for w in ("NeoHooke", "tt.yeoh", "NeoHookeCompressible", "OgdenRoxburgh")]
     req += ["load-variant:%s:%d" % (w, v) for w in ("pressure", "cauchy") for v in (0, 1, 2)]
+    # third coverage audit: labels of the plan above that were left to chance (scheduled by index, no precondition can remove them all) ...
+    req += ["tangent:" + u for u in ("SolidBodyCauchyStress[planestrain]", "SolidBodyCauchyStress[axisymmetric]", "SolidBody[NearlyIncompressible,mixed-planestrain]",
+                                     "SolidBody[NearlyIncompressible,mixed-axisymmetric]", "SolidBody[mixed,triangle6]", "SolidBodyNearlyIncompressible[triangle6]",
+                                     "two-condensed-bodies-on-one-field[planestrain]", "two-condensed-bodies-on-one-field[axisymmetric]",
+                                     "SolidBodyCauchyStress[RegionQuadraticHexahedronBoundary]", "SolidBodyCauchyStress[RegionQuadraticQuadBoundary]",
+                                     "SolidBodyCauchyStress[RegionBiQuadraticQuadBoundary]")]
+    # ... the explicit-field call style of the assembler ...
+    req.append("order:explicit-field-matrix")
+    req += ["tangent:%s@matrix(field)" % u for u in ("SolidBody[Field]", "SolidBody[FieldPlaneStrain]", "SolidBody[FieldAxisymmetric]", "SolidBody[ThreeFieldVariation,mixed]",
+                                                     "SolidBodyNearlyIncompressible[3d]", "SolidBodyPressure[hex]", "SolidBodyCauchyStress[hex]", "MultiPointConstraint",
+                                                     "PointLoad", "SolidBody[viscoelastic,history]", "FormItem", "FormItem[mixed]")]
+    # ... the umat call style of Newton, form items beyond the single-field one ...
+    req += ["tangent:tools.fun/jac[%s]" % k for k in ("3d", "planestrain", "axisymmetric", "mixed", "mixed-axisymmetric")]
+    req += ["tangent-symmetry:tools.fun/jac[3d]", "tangent-symmetry:tools.fun/jac[mixed]"]
+    req += ["umat-path-flags:" + f for f in ("default", "parallel", "sym", "spelled-out")]
+    req += ["tangent:FormItem[mixed]", "tangent-symmetry:FormItem[mixed]", "tangent:FormItem[none-forms]", "tangent:FormItem[boundary]+SolidBody"]
+    # ... state-variable laws on the remaining field kinds (the pseudo-elastic law is left out: its switch precondition can remove every draw) ...
+    req += ["tangent:SolidBody[%s,history,%s]" % wk for wk in (("viscoelastic", "axisymmetric"), ("viscoelastic", "mixed"), ("viscoelastic", "mixed-axisymmetric"),
+                                                               ("plasticity", "planestrain"), ("plasticity", "axisymmetric"))]
+    req += ["history-wrapper:%s(%s)" % (w, l) for w in ("ThreeFieldVariation", "NearlyIncompressible") for l in ("viscoelastic", "ogden-roxburgh")]
+    req.append("history-restart(statevars=)")
+    # ... and value types, twins and the axis for the follower loads
+    req += ["load-value-type:SolidBodyPressure:" + t for t in ("int", "0-d", "per-cell-int")] + ["load-value-type:SolidBodyCauchyStress:" + t for t in ("list", "int", "column-major")]
+    req += ["twin:pressure=cauchy-stress(-pI):vector", "twin:pressure=cauchy-stress(-pI):matrix"]
+    req += ["tangent:" + u for u in ("SolidBodyPressure[plain2d,int]", "SolidBodyCauchyStress[plain2d,list]", "SolidBodyPressure[mixed-axisymmetric,0-d]",
+                                     "SolidBodyCauchyStress[mixed-axisymmetric,int]", "SolidBodyPressure[axisymmetric,on-axis]", "SolidBodyCauchyStress[axisymmetric,on-axis]")]
+    req += ["axis-load-surface:end-face", "axis-load-surface:outline-without-axis-edge"]
+    req += ["tangent:" + u for u in ("SolidBodyNearlyIncompressible[triangle,planestrain]", "SolidBodyNearlyIncompressible[triangleMINI,axisymmetric]",
+                                     "SolidBody[mixed,tetra10,disconnect=False]", "SolidBody[uniform=True]", "SolidBodyNearlyIncompressible[uniform=True]")]
     return req
 
 
@@ -588,9 +1076,19 @@ SPEC = {
              "classes (straight-distorted, curved, affine) x 6 materials (hand-coded, tensortrax, jax, pseudo-elastic with stored "
              "history) at random nodal states with det F > 0.2; jac_items is compared with central differences of fun_items on deep "
              "copies in 3 random directions plus one per field of a mixed container, with three different call orders of vector and "
-             "matrix; a configuration is distinct by (item, field kind, family, geometry, material[, open/closed surface])"),
+             "matrix; a configuration is distinct by (item, field kind, family, geometry, material[, open/closed surface]); "
+             "third audit: the matrix is also taken as sum_i m_i item_i.assemble.matrix(field) with an explicit field after an evaluation at "
+             "another state (1 + one per field directions), tools.fun / tools.jac (the umat call style of Newton) with the documented flags on "
+             "5 field kinds, form items on mixed containers (sym x threaded), with one form only and on a boundary container with a solid, "
+             "state-variable laws on axisymmetric and mixed bodies (also restarted through statevars=), plasticity on the 2D kinds, follower "
+             "loads with integer / 0-d / per-cell / list / column-major values, on a plain 2D field, in a mixed axisymmetric list and on "
+             "bodies that touch the axis (surface without the axis edge); SolidBodyPressure(p) against SolidBodyCauchyStress(-p I), vector and matrix"),
     "assumptions": ["central differences with steps 2e-5 and 1e-5: a mismatch that still shrinks like h^2 is inconclusive, not a violation",
-                    "errors are normalised by max|K|", "contact states are generated at least 0.1 away from the switching point"],
+                    "errors are normalised by max|K|", "contact states are generated at least 0.1 away from the switching point",
+                    "a form item is judged together with the forms the user wrote: pairs of forms that are consistent by construction",
+                    "axisymmetric loads on a body that touches the axis: the loaded surface leaves out the edge on the axis (the default "
+                    "closed outline contains it and gives 0/0 there - reported, not judged); u_r = 0 on the axis",
+                    "the pressure twin is a comparison of two items of the library with each other (tolerance 1e-12 of the larger side, measured 0.0)"],
     "jobs": {"quick": 8, "thorough": 16},
     "timeout": {"quick": 900, "thorough": 5400},
 }
